@@ -1,10 +1,11 @@
 (** FlatStack machine for the correspondence check (C03, C19). *)
-From FC Require Import Base.Res Index.IC Region.Region Region.Items Stack.FlatStack Model.Wire.
+From FC Require Import Base.Res Index.IC Region.Region Region.Items Stack.FlatStack Resource.Res Model.Wire.
 Set Implicit Arguments.
 
 Inductive fsop :=
 | FCopy (u : uval) | FExtend (us : list uval) | FFromIter (us : list uval) | FClear | FReserve (n : N)
-| FClone | FObserve | FSerde.
+| FClone | FObserve | FSerde
+| FWithCap (n : N) | FMergeCap (k : nat) | FResRegs (us : list uval).
 
 Record FSM := { fm : MRegion; fs_ic : IC (idx (mr fm)); fs_ics : ICSer fs_ic }.
 
@@ -32,7 +33,9 @@ Section FSMach.
         (* a cloned iterator after one step: the suffix *)
         match items with Some l => USome (UL (tl l)) | None => UNone end;
         (* index bytes used, per heap_size callback of the index container *)
-        UL (map UN (ic_used S (snd x)))].
+        UL (map UN (ic_used S (snd x)));
+        (* bytes the region accounts for, per heap_size callback (C18: every branch contributes) *)
+        UL (map UN (r_used (m_res M) (fst x)))].
 
   Definition omap_vals (us : list uval) : option (list (val R)) := omap (of_u Wr) us.
 
@@ -59,6 +62,15 @@ Section FSMach.
     | FReserve _ :: ops' => UNone :: fs_run x ops'
     | FClone :: ops' => UNone :: fs_run x ops'
     | FObserve :: ops' => fs_observe x :: fs_run x ops'
+    (* FlatStack::with_capacity: a fresh stack; merge_capacity over k references to the stack itself:
+       no items, the region merged from k copies of the stack's region; reserve_regions: invisible *)
+    | FWithCap _ :: ops' => UNone :: fs_run (fs_default R S) ops'
+    | FMergeCap k :: ops' => UNone :: fs_run (merge R (repeat (fst x) k), ic_default S) ops'
+    | FResRegs us :: ops' =>
+        match omap_vals us with
+        | None => [UL [UN 99]]
+        | Some _ => UNone :: fs_run x ops'
+        end
     (* serde round trip of the whole stack: its serialised form before and after *)
     | FSerde :: ops' =>
         match m_ser M with
